@@ -54,6 +54,7 @@ def shards(tier, seed):
     subs = [(1, 4), (2, 4)] if tier == "quick" else [(1, 4), (1, 6), (2, 4), (2, 5), (3, 4)]
     for B, L in subs:
         out.append(dict(name="sub/B%d/L%d" % (B, L), kind="sub", B=B, L=L, weight=(L * 4) ** (2 * min(B, 2))))
+    out.append(dict(name="history", kind="history", B=1, L=4, weight=3000))
     return out
 
 
@@ -297,6 +298,12 @@ def run_sub(rec, sh, tier, seed):
 
 def run_shard(sh, tier, seed):
     rec = Recorder(PID, sh["name"])
+    if sh["kind"] == "history":
+        # one process, batch shapes / lengths / functions alternated: nothing may be carried over between calls
+        for (kind, B, L, left) in (("del", 1, 4, False), ("del", 2, 5, True), ("sub", 2, 4, None), ("del", 1, 5, True), ("ins", 1, 4, None),
+                                   ("del", 2, 4, False), ("sub", 1, 4, None), ("ins", 1, 5, None), ("del", 1, 4, False)):
+            {"del": run_del, "ins": run_ins, "sub": run_sub}[kind](rec, dict(B=B, L=L, left=left), "quick", seed)
+        return rec.result()
     {"del": run_del, "ins": run_ins, "sub": run_sub}[sh["kind"]](rec, sh, tier, seed)
     return rec.result()
 
